@@ -214,6 +214,12 @@ def skip_structure(ctx: Ctx, f: Func, rep: Report, qual: str) -> None:
             )
         if ok:
             rep.ok(f"{qual}: skip {token!r} is monotone", f"{len(exclusive)} exclusive node(s), all tests or `return False`", where=where(f, c.ast))
+    # no positive answer before the skip options were looked at: every truthy return lies behind every skip test
+    truthy_r = [r for r in return_nodes(cfg) if not falsy_const_return(r)]
+    for c, token, present in sconds:
+        early = [r for r in truthy_r if not cfg.dominates(c, r) and r in cfg.reachable(cfg.entry, avoid=lambda n, c=c: n is c, labels_avoid=("exc",))]
+        if early:
+            rep.violation(qual, f"{snippet(early[0].ast)} before the test of skip token {token!r}", "a positive answer can be given without the skip options having been consulted: with the option present the pair must answer False", where(f, early[0].ast), inp="identical non-contiguous wildcards on both entries, skip=['nc_wildcard']")
     # independence
     for c1, t1, p1 in sconds:
         for c2, t2, p2 in sconds:
